@@ -18,7 +18,15 @@ pub struct C14;
 
 #[derive(Serialize, Deserialize, Clone, Debug)]
 pub enum Req {
-    Open { d: u8, sync: bool, subscribe: bool },
+    Open {
+        d: u8,
+        sync: bool,
+        subscribe: bool,
+        /// the subscriber's receiving side is already gone when the request is made: the request may succeed (the dead
+        /// subscriber is pruned at the next event) or be refused, but a refused open must not change anything
+        #[serde(default)]
+        dead: bool,
+    },
     Close(u8),
     SetSync(u8, bool),
     InsertLocal { d: u8, k: u8, c: u8 },
@@ -81,6 +89,8 @@ struct DocModel {
     sync: bool,
     /// indices into the channel pool
     subs: Vec<usize>,
+    /// subscribers whose receiver was already gone when they were registered: counted until the next event prunes them
+    dead_subs: usize,
     entries: Model,
 }
 
@@ -123,7 +133,7 @@ impl Prop for C14 {
         let max = tier.pick(40, 120);
         let d = || prop_oneof![3 => Just(0u8), 1 => Just(1u8), 1 => Just(2u8)];
         let req = prop_oneof![
-            8 => (d(), any::<bool>(), prop::bool::weighted(0.3)).prop_map(|(d, sync, subscribe)| Req::Open { d, sync, subscribe }),
+            8 => (d(), any::<bool>(), prop::bool::weighted(0.3), prop::bool::weighted(0.3)).prop_map(|(d, sync, subscribe, dead)| Req::Open { d, sync, subscribe, dead: dead && subscribe }),
             5 => d().prop_map(Req::Close),
             6 => (d(), any::<bool>()).prop_map(|(d, s)| Req::SetSync(d, s)),
             5 => (d(), 0u8..6, 1u8..4).prop_map(|(d, k, c)| Req::InsertLocal { d, k, c }),
@@ -188,8 +198,8 @@ async fn observe(h: &SyncHandle, ids: &[NamespaceId], docs: &[DocModel], o: &mut
         match (m.handles > 0, st) {
             (false, Err(_)) => {}
             (true, Ok(s)) => {
-                if s.handles != m.handles || s.sync != m.sync || s.subscribers != m.subs.len() {
-                    o.fail("C14/state", format!("{what}: document {d} state {:?}, model handles={} sync={} subscribers={}", s, m.handles, m.sync, m.subs.len()));
+                if s.handles != m.handles || s.sync != m.sync || s.subscribers != m.subs.len() + m.dead_subs {
+                    o.fail("C14/state", format!("{what}: document {d} state {:?}, model handles={} sync={} subscribers={}+{} dead", s, m.handles, m.sync, m.subs.len(), m.dead_subs));
                     return Ok(());
                 }
                 let got = act::dump(h, ids[d]).await?;
@@ -235,21 +245,29 @@ fn run(ctx: &mut Ctx, c: &Seq, o: &mut Outcome) -> R<()> {
             let before = docs.clone();
             let mut failed_request = false;
             match r {
-                Req::Open { d, sync, subscribe } => {
+                Req::Open { d, sync, subscribe, dead } => {
                     let du = *d as usize;
                     let mut opts = OpenOpts::default();
                     if *sync {
                         opts = opts.sync();
                     }
                     let mut ch = None;
-                    if *subscribe {
+                    if *subscribe && *dead {
+                        let (tx, rx) = async_channel::bounded::<Event>(4);
+                        drop(rx);
+                        opts = opts.subscribe(tx);
+                    } else if *subscribe {
                         let (tx, rx) = async_channel::bounded(4096);
                         opts = opts.subscribe(tx.clone());
                         chans.push((tx, rx));
                         ch = Some(chans.len() - 1);
                     }
                     let res = h.open(ids[du], opts).await;
-                    if res.is_ok() != docs[du].exists {
+                    if *dead && res.is_err() && docs[du].exists {
+                        // refusing a subscriber that can never receive anything is acceptable; it must then change nothing
+                        o.class("open-with-dead-subscriber-refused");
+                        failed_request = true;
+                    } else if res.is_ok() != docs[du].exists {
                         o.fail("C14/open", format!("{what}: ok={} but document exists={}", res.is_ok(), docs[du].exists));
                         break;
                     }
@@ -258,6 +276,10 @@ fn run(ctx: &mut Ctx, c: &Seq, o: &mut Outcome) -> R<()> {
                         docs[du].sync = docs[du].sync || *sync;
                         if let Some(ch) = ch {
                             docs[du].subs.push(ch);
+                        }
+                        if *dead {
+                            docs[du].dead_subs += 1;
+                            o.class("open-with-dead-subscriber-accepted");
                         }
                         opens[du] += 1;
                     } else {
@@ -274,6 +296,7 @@ fn run(ctx: &mut Ctx, c: &Seq, o: &mut Outcome) -> R<()> {
                         if m.handles == 0 {
                             m.sync = false;
                             m.subs.clear();
+                            m.dead_subs = 0;
                         }
                     }
                     if res != (m.handles == 0) {
@@ -320,6 +343,7 @@ fn run(ctx: &mut Ctx, c: &Seq, o: &mut Outcome) -> R<()> {
                     }
                     if res.is_ok() {
                         docs[du].entries.apply(&e);
+                        docs[du].dead_subs = 0; // the insert event prunes subscribers whose receiver is gone
                         acked[du].push(e);
                     } else {
                         failed_request = true;
@@ -343,6 +367,7 @@ fn run(ctx: &mut Ctx, c: &Seq, o: &mut Outcome) -> R<()> {
                             o.fail("C14/write-result", format!("{what}: removed {n}, model {:?}", exp));
                             break;
                         }
+                        docs[du].dead_subs = 0;
                         acked[du].push(e);
                     } else {
                         failed_request = true;
@@ -478,6 +503,7 @@ fn run(ctx: &mut Ctx, c: &Seq, o: &mut Outcome) -> R<()> {
                         if m.handles == 0 {
                             m.sync = false;
                             m.subs.clear();
+                            m.dead_subs = 0;
                         }
                     }
                     let should = m.handles == 0;
@@ -514,7 +540,7 @@ fn run(ctx: &mut Ctx, c: &Seq, o: &mut Outcome) -> R<()> {
                     }
                 }
             }
-            if failed_request && docs.iter().zip(before.iter()).any(|(a, b)| a.entries != b.entries || a.handles != b.handles || a.sync != b.sync || a.subs != b.subs) {
+            if failed_request && docs.iter().zip(before.iter()).any(|(a, b)| a.entries != b.entries || a.handles != b.handles || a.sync != b.sync || a.subs != b.subs || a.dead_subs != b.dead_subs) {
                 return Err("harness bug: model changed on a failed request".into());
             }
             o.count("requests_checked_against_model", 1);
